@@ -1424,6 +1424,13 @@ package mcp
 //@   modifies *
 //@   ensures @content-array-is-never-null result.1 == nil && result.0 != nil && result.0.resultType != resultTypeInputRequired ==> result.0.Content != nil
 
+// prompts/get (C19, required members): a successful result never carries a null messages array.
+//@ func (*Server).getPrompt [C19]
+//@   callee prompt.handler: modifies *
+//@   requires s != nil && req != nil && req.Params != nil
+//@   modifies *
+//@   ensures @messages-array-is-never-null result.1 == nil && result.0 != nil && result.0.resultType != resultTypeInputRequired ==> result.0.Messages != nil
+
 // Client.Connect (C07): the version requested is never empty - no options, or options without a version, mean the
 // latest version, which starts with the stateless server/discover probe; the legacy initialize that follows a failed
 // probe asks for 2025-11-25; an explicitly requested version is used as given.
